@@ -1268,6 +1268,8 @@ pub fn twin_index(id: &str, tier: &str, seed: u64, idx: u64, stats: &mut Stats, 
     p.weights = cat(&[
         &p.weights,
         &[("open_read", 2), ("open_write", 2), ("open_append", 2), ("h_write", 5), ("h_flush", 2), ("h_drop", 3), ("h_read", 3), ("h_seek", 2), ("h_read_to_end", 1), ("read_all", 3)],
+        // the queries whose answer for a link depends on whose mode is looked at
+        &[("is_exec", 4), ("is_readonly", 3), ("mode", 2), ("is_symlink_file", 2), ("is_symlink_dir", 2)],
     ]);
     let mut gen = Gen::new(p, format!("{}", idx), &mut rng);
     let venv = venv_of(&gen.names, &mut rng);
